@@ -1,6 +1,7 @@
 package main
 
 import (
+	"bytes"
 	"fmt"
 	"math/rand"
 	"sort"
@@ -14,23 +15,7 @@ import (
 func emitMapRead(e *emitter, m *u.MapPollard, rf *refForest, R []u.Hash, rng *rand.Rand) {
 	label := mapName(m)
 	guarded(e, "mapread."+label, func() {
-		d := dumpMap(m)
-		var ns, cs []string
-		for k, v := range d.nodes {
-			ns = append(ns, fmt.Sprintf("%d:%s:%s", k, hx(v.Hash), b01(v.Remember)))
-		}
-		for k, v := range d.cached {
-			cs = append(cs, fmt.Sprintf("%s:%d", hx(k), v))
-		}
-		sort.Strings(ns)
-		sort.Strings(cs)
-		j := func(l []string) string {
-			if len(l) == 0 {
-				return "-"
-			}
-			return strings.Join(l, ",")
-		}
-		e.line("MAPSTATE %d %s %d %s %s", m.TotalRows, b01(m.Full), m.NumLeaves, j(ns), j(cs))
+		emitMapState(e, m, true)
 		e.line("MR %s GetRoots = %s", label, hs(m.GetRoots()))
 		rows := refRows(rf.n())
 		top := uint64(2)<<uint(rows) + 2
@@ -104,4 +89,229 @@ func emitMapRead(e *emitter, m *u.MapPollard, rf *refForest, R []u.Hash, rng *ra
 		}
 		e.count("mapread_states")
 	})
+}
+
+// ---------- MAPSTATE dumps and MM events (mirror of the mutators, Model/MapMut.v) ----------
+
+// mapStateLine is the MAPSTATE event: TotalRows, Full, NumLeaves, the node map and the cached leaves.
+func mapStateLine(m *u.MapPollard) string {
+	d := dumpMap(m)
+	var ns, cs []string
+	for k, v := range d.nodes {
+		ns = append(ns, fmt.Sprintf("%d:%s:%s", k, hx(v.Hash), b01(v.Remember)))
+	}
+	for k, v := range d.cached {
+		cs = append(cs, fmt.Sprintf("%s:%d", hx(k), v))
+	}
+	sort.Strings(ns)
+	sort.Strings(cs)
+	j := func(l []string) string {
+		if len(l) == 0 {
+			return "-"
+		}
+		return strings.Join(l, ",")
+	}
+	return fmt.Sprintf("MAPSTATE %d %s %d %s %s", m.TotalRows, b01(m.Full), m.NumLeaves, j(ns), j(cs))
+}
+
+var (
+	mmLastState string // the last MAPSTATE line written in the current case ("" = none)
+	mmDedup     bool   // the generator calls mmReset at every CASE line, so an identical dump may be skipped
+	mmEvery     = 1    // emit the MM event for one mutation out of mmEvery
+	mmCtr       int
+)
+
+// mmReset must be called right after a CASE line: the oracle shard that reads the case has seen no dump yet.
+func mmReset() { mmLastState, mmDedup = "", true }
+
+// emitMapState writes the MAPSTATE event; with force=false it is skipped when the oracle already holds this state.
+func emitMapState(e *emitter, m *u.MapPollard, force bool) string {
+	l := mapStateLine(m)
+	if !force && mmDedup && l == mmLastState {
+		return l
+	}
+	e.line("%s", l)
+	if !e.muted {
+		mmLastState = l
+	}
+	return l
+}
+
+func leavesStr(l []u.Leaf) string {
+	if len(l) == 0 {
+		return "-"
+	}
+	s := make([]string, len(l))
+	for i, x := range l {
+		s[i] = hx(x.Hash) + ":" + b01(x.Remember)
+	}
+	return strings.Join(s, ",")
+}
+func cpH(l []u.Hash) []u.Hash   { return append([]u.Hash{}, l...) }
+func cpU(l []uint64) []uint64   { return append([]uint64{}, l...) }
+func cpL(l []u.Leaf) []u.Leaf   { return append([]u.Leaf{}, l...) }
+func cpProof(p u.Proof) u.Proof { return u.Proof{Targets: cpU(p.Targets), Proof: cpH(p.Proof)} }
+
+// mmCall runs one mutation of m.  For a sampled call it writes the pre-state (unless it is the last dump), the MM
+// event with the outcome (ok, err, or panic - the panic goes on to the caller) and the post-state.  The argument
+// text is built by the callers BEFORE the call and the library receives copies of the slices.
+func mmCall(e *emitter, m *u.MapPollard, op, args string, f func() error) (err error) {
+	mmCtr++
+	if mmEvery > 1 && mmCtr%mmEvery != 0 {
+		return f()
+	}
+	label := mapName(m)
+	pre := emitMapState(e, m, false)
+	res := "panic"
+	defer func() {
+		e.line("MM %s %s %s = %s", label, op, args, res)
+		post := emitMapState(e, m, true)
+		e.count("mm_" + op + "_" + res)
+		if res != "ok" {
+			// not judged: does a rejected call leave the forest as it was?
+			if pre == post {
+				e.count("mm_" + op + "_" + res + "_state_unchanged")
+			} else {
+				e.count("mm_" + op + "_" + res + "_state_CHANGED")
+			}
+		}
+	}()
+	err = f()
+	res = errStr(err)
+	return err
+}
+
+func mmModify(e *emitter, m *u.MapPollard, adds []u.Leaf, dels []u.Hash, proof u.Proof) error {
+	args := fmt.Sprintf("%s %s %s %s", leavesStr(adds), hs(dels), us(proof.Targets), hs(proof.Proof))
+	a, d, p := cpL(adds), cpH(dels), cpProof(proof)
+	return mmCall(e, m, "Modify", args, func() error { return m.Modify(a, d, p) })
+}
+func mmUndo(e *emitter, m *u.MapPollard, numAdds uint64, proof u.Proof, hashes, prevRoots []u.Hash) error {
+	args := fmt.Sprintf("%d %s %s %s %s", numAdds, us(proof.Targets), hs(proof.Proof), hs(hashes), hs(prevRoots))
+	p, h, r := cpProof(proof), cpH(hashes), cpH(prevRoots)
+	return mmCall(e, m, "Undo", args, func() error { return m.Undo(numAdds, p, h, r) })
+}
+func mmVerify(e *emitter, m *u.MapPollard, dels []u.Hash, proof u.Proof) error {
+	args := fmt.Sprintf("%s %s %s", hs(dels), us(proof.Targets), hs(proof.Proof))
+	d, p := cpH(dels), cpProof(proof)
+	return mmCall(e, m, "Verify", args, func() error { return m.Verify(d, p, true) })
+}
+func mmIngest(e *emitter, m *u.MapPollard, dels []u.Hash, proof u.Proof) error {
+	args := fmt.Sprintf("%s %s %s", hs(dels), us(proof.Targets), hs(proof.Proof))
+	d, p := cpH(dels), cpProof(proof)
+	return mmCall(e, m, "Ingest", args, func() error { return m.Ingest(d, p) })
+}
+func mmPrune(e *emitter, m *u.MapPollard, hashes []u.Hash) error {
+	args := hs(hashes)
+	h := cpH(hashes)
+	return mmCall(e, m, "Prune", args, func() error { return m.Prune(h) })
+}
+
+// cloneMap copies a map forest through its own serialization.
+func cloneMap(m *u.MapPollard) *u.MapPollard {
+	var b bytes.Buffer
+	if _, err := m.Write(&b); err != nil {
+		return nil
+	}
+	c := u.NewMapPollard(m.Full)
+	if _, err := c.Read(&b); err != nil {
+		return nil
+	}
+	return &c
+}
+
+// mmProbe makes, on a CLONE of m, one call that an honest caller would not make: input that the forest rejects
+// (error or index panic) or garbage that it accepts without checking.  The mirror has to agree on the outcome and,
+// for an accepted call, on the resulting maps.  A panic is an outcome here, not a harness failure.
+func mmProbe(e *emitter, m *u.MapPollard, rf *refForest, R []u.Hash, last *blockRec, rng *rand.Rand) {
+	c := cloneMap(m)
+	if c == nil {
+		return
+	}
+	defer func() { recover() }()
+	live := rf.liveHashes()
+	cut := func(l []u.Hash) []u.Hash { return cpH(l[:len(l)-1]) }
+	switch kind := rng.Intn(9); kind {
+	case 0: // Modify deleting a leaf that is not cached
+		mmModify(e, c, []u.Leaf{{Hash: newLeaf(), Remember: true}}, []u.Hash{newLeaf()}, u.Proof{Targets: []uint64{0}})
+		e.count("probe_modify_uncached")
+	case 1: // Verify(remember) of a false claim
+		if len(live) == 0 {
+			return
+		}
+		sub := []u.Hash{live[rng.Intn(len(live))]}
+		proof, _ := rf.prove(sub)
+		sub[0][rng.Intn(32)] ^= 1 << uint(rng.Intn(8))
+		mmVerify(e, c, sub, proof)
+		e.count("probe_verify_false")
+	case 2: // Ingest with the last proof hash missing
+		if len(live) == 0 {
+			return
+		}
+		sub := []u.Hash{live[rng.Intn(len(live))]}
+		proof, _ := rf.prove(sub)
+		if len(proof.Proof) == 0 {
+			return
+		}
+		proof.Proof = cut(proof.Proof)
+		mmIngest(e, c, sub, proof)
+		e.count("probe_ingest_short")
+	case 3: // Undo with the last proof hash missing
+		if last == nil || len(last.proof.Proof) == 0 {
+			return
+		}
+		mmUndo(e, c, uint64(len(last.adds)), u.Proof{Targets: last.proof.Targets, Proof: cut(last.proof.Proof)}, last.dels, last.prevRoots)
+		e.count("probe_undo_shortproof")
+	case 4: // Undo with one previous root missing
+		if last == nil || len(last.prevRoots) == 0 {
+			return
+		}
+		mmUndo(e, c, uint64(len(last.adds)), last.proof, last.dels, cut(last.prevRoots))
+		e.count("probe_undo_shortroots")
+	case 5: // Prune of leaves that are not cached, and of one that is
+		hh := []u.Hash{newLeaf()}
+		if len(R) > 0 {
+			hh = append(hh, R[rng.Intn(len(R))], newLeaf())
+		}
+		mmPrune(e, c, hh)
+		e.count("probe_prune_unknown")
+	case 6: // Modify: cached leaves deleted at the positions of OTHER leaves (accepted without a check)
+		if len(R) == 0 || len(live) < 2 {
+			return
+		}
+		k := 1 + rng.Intn(min(len(R), 3))
+		rr := cpH(R)
+		rng.Shuffle(len(rr), func(i, j int) { rr[i], rr[j] = rr[j], rr[i] })
+		ll := cpH(live)
+		rng.Shuffle(len(ll), func(i, j int) { ll[i], ll[j] = ll[j], ll[i] })
+		if len(ll) < k {
+			return
+		}
+		proof, _ := rf.prove(ll[:k])
+		mmModify(e, c, []u.Leaf{{Hash: newLeaf(), Remember: rng.Intn(2) == 0}}, rr[:k], proof)
+		e.count("probe_modify_wrongtargets")
+	case 7: // Undo with a wrong number of additions
+		if last == nil {
+			return
+		}
+		n := uint64(len(last.adds))
+		if rng.Intn(2) == 0 && n > 0 {
+			n--
+		} else if n+1 <= c.NumLeaves {
+			n++
+		} else {
+			return
+		}
+		mmUndo(e, c, n, last.proof, last.dels, last.prevRoots)
+		e.count("probe_undo_wrongcount")
+	case 8: // Ingest / Verify of a claim whose hash list is longer or shorter than the target list are not mirrored
+		// (outside the mirrored domain, see Model/MapMut.v); instead: Verify(remember) of what is remembered already
+		if len(R) == 0 {
+			return
+		}
+		sub := []u.Hash{R[rng.Intn(len(R))]}
+		proof, _ := rf.prove(sub)
+		mmVerify(e, c, sub, proof)
+		e.count("probe_verify_again")
+	}
 }
